@@ -132,12 +132,12 @@ def cb_int(unit: int, f0: int, f1: int, b0: int, b1: int, sysbw: int, hcap: int,
     return wit.verdict(t)
 
 
-UNITS = ['seconds', 'minutes', 'hours', 7, 'minute', 49, 300, 600, 3]
+UNITS = ['seconds', 'minutes', 'hours', 7, 'minute', 49, 300, 600, 3, 'Minutes', 'HOURS', ' hours']     # the last three: not the documented spellings -> factor 1 everywhere
 
 
 def instr_tag(uk, s, d, rate, demand, ingest):
     wit.begin()
-    uk, s, d, rate = cz(uk, 0, 8), cz(s, 0, 30), cz(d, 1, 30), cz(rate, 0, 4) * 37     # round() of a symbolic product is not decidable here
+    uk, s, d, rate = cz(uk, 0, len(UNITS) - 1), cz(s, 0, 30), cz(d, 1, 30), cz(rate, 0, 4) * 37     # round() of a symbolic product is not decidable here
     demand, ingest = cz(demand, 1, 3), cz(ingest, 1, 2)
     return wit.native(_instr, uk, s, d, rate, demand, ingest)
 
